@@ -7,17 +7,19 @@ Open Scope string_scope.
 Open Scope list_scope.
 
 (* Full-strength statement: on EVERY well-formed circuit tree and EVERY pattern the recursion of get_nodes returns
-   the denotation of the path.  It is false of the code as it is (D31 and two lenient readings): *)
+   the denotation of the path.  It is false of the code as it is (two lenient readings: a pattern longer than the
+   address of a node, a pattern that ends at a sub-circuit; the KeyError class D31 is repaired, D73): *)
 Definition C06_full_statement : Prop := full_statement.
 Theorem C06_full_refuted : ~ C06_full_statement.
 Proof. exact full_statement_refuted. Qed.
 Print Assumptions C06_full_refuted.
 
-(* ... and true under the decidable guard `resolvable` (any depth, 'all' at any level, any var_identifier):
-   the result is the list of matching leaves, depth first in declaration order *)
+(* ... and true under the decidable guard `resolvable` = not too long and not too short (any depth, 'all' at any
+   level, names that some or all branches lack, any var_identifier): the result is the list of matching leaves, depth
+   first in declaration order *)
 Theorem C06_get_nodes_partial : forall t v pat, wfb t = true -> resolvable t pat = true ->
   get_nodes t v pat = Ok (path_denotation t v pat).
-Proof. exact (get_nodes_correct nofix). Qed.
+Proof. exact (get_nodes_correct asis). Qed.
 Print Assumptions C06_get_nodes_partial.
 
 Theorem C06_no_duplicates : forall t v pat, wfb t = true -> NoDup (path_denotation t v pat).
@@ -26,7 +28,7 @@ Print Assumptions C06_no_duplicates.
 
 Theorem C06_get_nodes_no_duplicates : forall t v pat l, wfb t = true -> resolvable t pat = true ->
   get_nodes t v pat = Ok l -> NoDup l.
-Proof. exact (get_nodes_NoDup nofix). Qed.
+Proof. exact (get_nodes_NoDup asis). Qed.
 Print Assumptions C06_get_nodes_no_duplicates.
 
 (* what the denotation is: exactly the leaves whose address matches and that carry the variable *)
@@ -45,17 +47,19 @@ Theorem C06_order_invariant : forall t t' v pat, tperm t t' ->
 Proof. exact denotation_order_invariant. Qed.
 Print Assumptions C06_order_invariant.
 
-(* the exceptions outside the guard *)
-Theorem C06_get_nodes_keyerror : forall ch v p r rest, String.eqb p all = false -> ~ In p (map fst ch) ->
-  get_nodes (Circ ch) v (p :: r :: rest) = Err KeyError.
+(* before repair D73 (kept for the revert test): a missing named level raised KeyError *)
+Theorem C06_keyerror_before_fix : forall ch v p r rest, String.eqb p all = false -> ~ In p (map fst ch) ->
+  get_nodes_gen nofix (Circ ch) v (p :: r :: rest) = Err KeyError.
 Proof. exact (fun ch v p r rest => get_nodes_keyerror nofix ch v p r rest eq_refl). Qed.
-Print Assumptions C06_get_nodes_keyerror.
-Theorem C06_refuted_D31 : wfb two_branches = true /\
-  get_nodes two_branches (Some ox) ["all"; "c1"; "n0"] = Err KeyError /\
+Print Assumptions C06_keyerror_before_fix.
+Theorem C06_D31_before_fix : wfb two_branches = true /\
+  get_nodes_gen nofix two_branches (Some ox) ["all"; "c1"; "n0"] = Err KeyError /\
+  get_nodes two_branches (Some ox) ["all"; "c1"; "n0"] = Ok [["a"; "c1"; "n0"]] /\
   path_denotation two_branches (Some ox) ["all"; "c1"; "n0"] = [["a"; "c1"; "n0"]] /\
-  names_resolve two_branches ["all"; "c1"; "n0"] = false.
-Proof. exact refuted_D31. Qed.
-Print Assumptions C06_refuted_D31.
+  names_resolve two_branches ["all"; "c1"; "n0"] = false /\ resolvable two_branches ["all"; "c1"; "n0"] = true.
+Proof. exact D31_before_fix. Qed.
+Print Assumptions C06_D31_before_fix.
+(* the lenient readings that remain outside the guard *)
 Theorem C06_refuted_too_long : wfb flat3 = true /\
   get_nodes flat3 (Some ox) ["B"; "zzz"] = Ok [["B"]] /\ path_denotation flat3 (Some ox) ["B"; "zzz"] = [] /\
   not_too_long flat3 ["B"; "zzz"] = false.
@@ -70,12 +74,12 @@ Print Assumptions C06_refuted_too_short.
 (* output stage: dict form resolves every key to the denotation of its path *)
 Theorem C06_positions_dict : forall t reqs, wfb t = true -> reqs_resolvable t reqs = true -> all_found t reqs = true ->
   positions_dict t reqs = Ok (flat_map (entries_of t) reqs).
-Proof. exact (positions_dict_spec nofix). Qed.
+Proof. exact (positions_dict_spec asis). Qed.
 Print Assumptions C06_positions_dict.
 (* ... and refuses a key whose path denotes nothing (fix D48) *)
 Theorem C06_missing_output_refused : forall t key pat o x rest, wfb t = true -> resolvable t pat = true ->
   path_denotation t (Some (o, x)) pat = [] -> positions_dict t ((key, (pat, (o, x))) :: rest) = Err PyRatesException.
-Proof. exact (positions_dict_missing nofix). Qed.
+Proof. exact (positions_dict_missing asis). Qed.
 Print Assumptions C06_missing_output_refused.
 Theorem C06_multi_label : forall (key : string) n o x,
   key :: firstn (List.length (var_key n o x) - 2) (var_key n o x) ++ [last2 (var_key n o x)] = key :: n ++ [opvar o x].
@@ -100,25 +104,19 @@ Print Assumptions C06_column_is_slot.
    l names.  With C06_column_is_slot that source is state slot pos(variable, unit). *)
 Theorem C06_run_returns : forall t L U f reqs, f <> ListFormOld ->
   wfb t = true -> reqs_resolvable t reqs = true -> all_found t reqs = true -> reqs <> [] ->
-  (f = DictForm -> no_overlap t reqs = true /\ no_pop_in_wildcard t U reqs = true) ->
+  (f = DictForm -> no_pop_in_wildcard t U reqs = true) ->
   covers L U (requested t f reqs) = true ->
   run_columns t L f reqs = Ok (map (col_of L) (spec_columns t U f reqs)).
 Proof. exact run_columns_spec_asis. Qed.
 Print Assumptions C06_run_returns.
-(* the same two theorems for the code WITH the two proposed repairs (fixes/proposed_fix_C06_D31.diff, _overlap.diff):
-   a missing named level denotes nothing instead of raising, overlapping wildcard keys are served; the guards
-   names_resolve and no_overlap are gone *)
-Theorem C06_get_nodes_repaired : forall t v pat, wfb t = true -> resolvable_gen bothfixes t pat = true ->
-  get_nodes_gen bothfixes t v pat = Ok (path_denotation t v pat).
-Proof. exact (get_nodes_correct bothfixes). Qed.
-Print Assumptions C06_get_nodes_repaired.
-Theorem C06_run_returns_repaired : forall t L U f reqs, f <> ListFormOld ->
-  wfb t = true -> reqs_resolvable_gen bothfixes t reqs = true -> all_found t reqs = true -> reqs <> [] ->
-  (f = DictForm -> no_pop_in_wildcard t U reqs = true) ->
+(* the same theorem for the code before repairs D73 / D77 needed the guards names_resolve and no_overlap *)
+Theorem C06_run_returns_before_fix : forall t L U f reqs, f <> ListFormOld ->
+  wfb t = true -> reqs_resolvable_gen nofix t reqs = true -> all_found t reqs = true -> reqs <> [] ->
+  (f = DictForm -> no_overlap t reqs = true /\ no_pop_in_wildcard t U reqs = true) ->
   covers L U (requested t f reqs) = true ->
-  run_columns_gen bothfixes t L f reqs = Ok (map (col_of L) (spec_columns t U f reqs)).
-Proof. exact run_columns_spec_repaired. Qed.
-Print Assumptions C06_run_returns_repaired.
+  run_columns_gen nofix t L f reqs = Ok (map (col_of L) (spec_columns t U f reqs)).
+Proof. exact run_columns_spec_before. Qed.
+Print Assumptions C06_run_returns_before_fix.
 (* the index map of apply() is injective (C04's theorem; a hypothesis here): two different requested units are read
    from two different state slots, so no column can carry another unit's trajectory *)
 Theorem C06_distinct_units_distinct_slots : forall L,
@@ -169,17 +167,20 @@ Theorem C06_plain_key_regression :
     Ok [(["ab"], ("x", 1)); (["a"; "A"; "op/x"], ("x", 0)); (["a"; "B"; "op/x"], ("x", 1)); (["a"; "C"; "op/x"], ("x", 2))].
 Proof. exact plain_key_regression. Qed.
 Print Assumptions C06_plain_key_regression.
-Theorem C06_overlap_refuted :
-  run_columns flat3 L3 DictForm [("a", (["all"], ox)); ("b", (["all"], ox))] = Err KeyError /\
+Theorem C06_overlap_before_fix :
+  run_columns_gen nofix flat3 L3 DictForm [("a", (["all"], ox)); ("b", (["all"], ox))] = Err KeyError /\
   List.length (spec_columns flat3 [] DictForm [("a", (["all"], ox)); ("b", (["all"], ox))]) = 6 /\
-  no_overlap flat3 [("a", (["all"], ox)); ("b", (["all"], ox))] = false.
-Proof. exact overlap_refuted. Qed.
-Print Assumptions C06_overlap_refuted.
-Theorem C06_stale_indices_refuted :
+  no_overlap flat3 [("a", (["all"], ox)); ("b", (["all"], ox))] = false /\
+  map fst (match run_columns flat3 L3 DictForm [("a", (["all"], ox)); ("b", (["all"], ox))] with Ok l => l | Err _ => [] end) =
+  map fst (spec_columns flat3 [] DictForm [("a", (["all"], ox)); ("b", (["all"], ox))]).
+Proof. exact overlap_before_fix. Qed.
+Print Assumptions C06_overlap_before_fix.
+(* _get_var_idx with a non-empty template map (before repair D74 get_run_func(in_place=False) left one behind) *)
+Theorem C06_stale_indices_before_fix :
   source_of (L_stale true) ["N1"; "op"; "x"] = Ok ("x", [4]) /\ source_of (L_stale false) ["N1"; "op"; "x"] = Ok ("x", [1]) /\
   source_of (L_stale false) ["N4"; "op"; "x"] = Ok ("x", [4]).
 Proof. exact stale_indices_refuted. Qed.
-Print Assumptions C06_stale_indices_refuted.
+Print Assumptions C06_stale_indices_before_fix.
 
 Example C06_nonvacuous : wfb nv_tree = true /\ resolvable nv_tree ["all"; "A"] = true /\
   get_nodes nv_tree (Some ox) ["all"; "A"] = Ok [["c1"; "A"]; ["c2"; "A"]] /\
